@@ -119,6 +119,32 @@ def step (c : Cfg) (s : St) (t : Nat) : Ev → St
 def run (c : Cfg) (h : List (Nat × Ev)) : St :=
   h.foldl (fun s e => step c s e.1 e.2) (St.init c)
 
+/-! ### a live counter and a snapshot of it taken with `Clone()` -/
+
+/-- the live counter and the latest `Clone()` of it (two separate objects in Go) -/
+structure Duo where
+  live : St
+  snap : Option St
+deriving Repr, DecidableEq
+
+def Duo.init (c : Cfg) : Duo := ⟨St.init c, none⟩
+
+/-- an event on the live counter, taking a snapshot (`snap = live.Clone()`), an event on the snapshot -/
+inductive DEv where
+  | live (e : Ev)
+  | clone
+  | snap (e : Ev)
+deriving Repr, DecidableEq
+
+def Duo.step (c : Cfg) (d : Duo) (t : Nat) : DEv → Duo
+  | .live e => { d with live := RCnt.step c d.live t e }
+  | .clone => let r := clone c d.live t; ⟨r.1, some r.2⟩
+  | .snap e => { d with snap := d.snap.map fun s => RCnt.step c s t e }
+
+/-- live counter and snapshot after an arbitrarily interleaved history of events on both -/
+def Duo.run (c : Cfg) (h : List (Nat × DEv)) : Duo :=
+  h.foldl (fun d e => d.step c e.1 e.2) (Duo.init c)
+
 /-! ### RatioCounter -/
 
 structure Ratio where
